@@ -91,25 +91,57 @@ pub uninterp spec fn f64_of(x: f32) -> f64;
 pub fn f64_of_f32(x: f32) -> (r: f64) ensures r == f64_of(x) { x as f64 }
 /// `x as f32` for an f64 (rounding; uninterpreted)
 pub uninterp spec fn f32_of(x: f64) -> f32;
-#[verifier::external_body]
-pub fn f32_of_f64(x: f64) -> (r: f32) ensures r == f32_of(x) { x as f32 }
-/// float `==` (uninterpreted but deterministic); `!=` is its negation (IEEE 754)
+/// float `==` on doubles (uninterpreted but deterministic); `!=` is its negation (IEEE 754)
 pub uninterp spec fn feq(a: f64, b: f64) -> bool;
+
+/// The element type of the work window is taken from the real text (`vec![0f64; DATA_SIZE]`).  C15: the
+/// per-base sum is computed in double precision and narrowed once at the end, so the whole vocabulary is
+/// written over f64 cells; `c64`/`e64` read a window / a cell as doubles.  For f64 both are the identity.
+/// The f32 instance only exists so that an edit changing the accumulator type is JUDGED (its sums are
+/// f32 additions, which are not the f64 fold the contract demands) instead of being rejected by rustc.
+pub trait Cell: Sized {
+    spec fn seq64(s: Seq<Self>) -> Seq<f64>;
+    spec fn elt64(x: Self) -> f64;
+    spec fn narrow(x: Self) -> f32;
+}
+impl Cell for f64 {
+    open spec fn seq64(s: Seq<f64>) -> Seq<f64> { s }
+    open spec fn elt64(x: f64) -> f64 { x }
+    open spec fn narrow(x: f64) -> f32 { f32_of(x) }
+}
+impl Cell for f32 {
+    open spec fn seq64(s: Seq<f32>) -> Seq<f64> { Seq::new(s.len(), |i: int| f64_of(s[i])) }
+    open spec fn elt64(x: f32) -> f64 { f64_of(x) }
+    open spec fn narrow(x: f32) -> f32 { x }
+}
+pub open spec fn c64<T: Cell>(s: Seq<T>) -> Seq<f64> { T::seq64(s) }
+pub open spec fn e64<T: Cell>(x: T) -> f64 { T::elt64(x) }
+/// `a == b` / `a != b` on cells; `x as f32` on a cell
 #[verifier::external_body]
-pub fn f64_eq(a: f64, b: f64) -> (r: bool) ensures r == feq(a, b) { a == b }
+pub fn cell_eq<T: Cell>(a: T, b: T) -> (r: bool) ensures r == feq(e64(a), e64(b)) { unimplemented!() }
 #[verifier::external_body]
-pub fn f64_ne(a: f64, b: f64) -> (r: bool) ensures r == !feq(a, b) { a != b }
+pub fn cell_ne<T: Cell>(a: T, b: T) -> (r: bool) ensures r == !feq(e64(a), e64(b)) { unimplemented!() }
+#[verifier::external_body]
+pub fn cell_to_f32<T: Cell>(a: T) -> (r: f32) ensures r == T::narrow(a) { unimplemented!() }
 
 /// `&mut data[a..b]`: the slice expression panics unless a <= b <= len
-pub fn slice_bounds(d: &Vec<f64>, a: usize, b: usize)
+pub fn slice_bounds<T>(d: &Vec<T>, a: usize, b: usize)
     requires a <= b <= d@.len(),
 { }
 /// one element of `&mut data[a..b]` handed out by the slice iterator
 #[verifier::external_body]
-pub fn cell_mut(data: &mut Vec<f64>, i: usize) -> (r: &mut f64)
+pub fn cell_mut<T>(data: &mut Vec<T>, i: usize) -> (r: &mut T)
     requires i < old(data)@.len(),
     ensures *r == old(data)@[i as int], final(data)@ == old(data)@.update(i as int, *final(r)),
 { &mut data[i] }
+/// `u32::wrapping_add` (real semantics, so that an edit using it is judged)
+#[verifier::external_body]
+pub fn u32_wrapping_add(a: u32, b: u32) -> (r: u32)
+    ensures r as int == (if a as int + b as int > u32::MAX as int { a as int + b as int - 0x1_0000_0000 } else { a as int + b as int }),
+{ a.wrapping_add(b) }
+spec fn umax() -> int { u32::MAX as int }
+/// start of the window after [cs, cs + DATA_SIZE): saturates at u32::MAX
+spec fn next_cs(cs: int) -> int { imin(cs + DATA_SIZE as int, u32::MAX as int) }
 
 // ---------------- vocabulary: the window ----------------
 spec fn imax(a: int, b: int) -> int { if a >= b { a } else { b } }
@@ -282,7 +314,7 @@ proof fn lemma_emit_empty(d: Seq<f64>, cs: int)
 /// closing the run r = [a, b) behind output that lies before cell a
 proof fn lemma_emit_push(runs: Seq<(int, int)>, r: (int, int), d: Seq<f64>, cs: int, n: int)
     requires
-        0 <= r.0 < r.1 <= n <= DATA_SIZE, 0 <= cs, cs + DATA_SIZE as int <= u32::MAX as int,
+        0 <= r.0 < r.1 <= n <= DATA_SIZE, 0 <= cs, cs + n <= u32::MAX as int,
         sorted_in(emit(runs, d, cs), cs, cs + r.0),
     ensures
         emit(runs.push(r), d, cs) == (if !feq(d[r.0], 0.0f64) { emit(runs, d, cs).push(run_value(r, d, cs)) } else { emit(runs, d, cs) }),
@@ -326,7 +358,7 @@ spec fn close_run(o: Seq<Value>, r: (int, int), d: Seq<f64>, cs: int) -> Seq<Val
 /// closed runs tile [0, s), are maximal, have been emitted; the open run [s, idx) has equal sums
 #[verifier::opaque]
 spec fn rle_deep(runs: Seq<(int, int)>, o: Seq<Value>, d: Seq<f64>, cs: int, n: int, s: int, idx: int) -> bool {
-    &&& 0 <= idx <= n <= DATA_SIZE && d.len() == DATA_SIZE && 0 <= cs && cs + DATA_SIZE as int <= u32::MAX as int
+    &&& 0 <= idx <= n <= DATA_SIZE && d.len() == DATA_SIZE && 0 <= cs && cs + n <= u32::MAX as int
     &&& idx == 0 ==> s == 0
     &&& idx > 0 ==> 0 <= s < idx
     &&& runs_tile(runs, s)
@@ -336,7 +368,7 @@ spec fn rle_deep(runs: Seq<(int, int)>, o: Seq<Value>, d: Seq<f64>, cs: int, n: 
     &&& forall|j: int| s < j < idx ==> feq(d[s], #[trigger] d[j])
 }
 proof fn lemma_rle_init(d: Seq<f64>, cs: int, n: int)
-    requires 0 <= n <= DATA_SIZE, d.len() == DATA_SIZE, 0 <= cs, cs + DATA_SIZE as int <= u32::MAX as int,
+    requires 0 <= n <= DATA_SIZE, d.len() == DATA_SIZE, 0 <= cs, cs + n <= u32::MAX as int,
     ensures rle_deep(Seq::<(int, int)>::empty(), Seq::<Value>::empty(), d, cs, n, 0, 0),
 {
     reveal(rle_deep); reveal(sorted_in);
@@ -432,7 +464,6 @@ pub struct Win {
 pub struct Hist {
     pub wins: Seq<Win>,
     pub emitted: Seq<Value>,
-    pub limit: int,                                  // no input value ends beyond this base
 }
 spec fn zeros() -> Seq<f64> { Seq::new(DATA_SIZE as nat, |i: int| 0.0f64) }
 spec fn pends(s: Seq<(VIter, Option<Value>)>) -> Seq<Seq<Result<Value, MergeError>>> {
@@ -467,9 +498,6 @@ spec fn total_len(ps: Seq<Seq<Result<Value, MergeError>>>) -> int
 {
     if ps.len() == 0 { 0 } else { total_len(ps.drop_last()) + ps.last().len() }
 }
-spec fn ends_by(ps: Seq<Seq<Result<Value, MergeError>>>, limit: int) -> bool {
-    forall|i: int, j: int| 0 <= i < ps.len() && 0 <= j < ps[i].len() && (#[trigger] ps[i][j]) is Ok ==> ps[i][j]->Ok_0.end <= limit
-}
 spec fn all_sec_ok(ps: Seq<Seq<Result<Value, MergeError>>>, cs: int) -> bool {
     forall|i: int| 0 <= i < ps.len() ==> sec_ok(#[trigger] ps[i], cs)
 }
@@ -480,20 +508,20 @@ spec const MAXHALF: int = 0x7fff_ffff_ffff_ffff;
 /// max_data_len, max_sections, all_none; the first error stops the loop.  Every clause below is the
 /// fold of the corresponding proved clause of `next_section`.
 #[verifier::external_body]
-fn accumulate_sections(sections: &mut Vec<(VIter, Option<Value>)>, data: &mut Vec<f64>, current_start: u32, max_data_len: usize, max_sections: usize, all_none: bool, self_error: &mut bool) -> (r: (usize, usize, bool, Option<MergeError>, Ghost<Seq<int>>))
+fn accumulate_sections<T: Cell>(sections: &mut Vec<(VIter, Option<Value>)>, data: &mut Vec<T>, current_start: u32, max_data_len: usize, max_sections: usize, all_none: bool, self_error: &mut bool) -> (r: (usize, usize, bool, Option<MergeError>, Ghost<Seq<int>>))
     requires
-        old(data)@.len() == DATA_SIZE, current_start as int + DATA_SIZE as int <= u32::MAX as int,
+        old(data)@.len() == DATA_SIZE,
         all_sec_ok(pends(old(sections)@), current_start as int),
-        max_data_len <= DATA_SIZE,
         max_sections as int + total_len(pends(old(sections)@)) < usize::MAX as int,
     ensures
-        final(data)@.len() == DATA_SIZE, r.0 <= DATA_SIZE,
+        final(data)@.len() == DATA_SIZE, max_data_len <= DATA_SIZE ==> r.0 <= DATA_SIZE,
+        current_start as int + max_data_len as int <= u32::MAX as int ==> current_start as int + r.0 as int <= u32::MAX as int,
         r.3 is Some ==> *final(self_error),
         r.3 is None ==> *final(self_error) == *old(self_error),
         r.3 is None ==> stops_ok(pends(old(sections)@), r.4@, current_start as int + DATA_SIZE as int),
         r.3 is None ==> pends(final(sections)@) == next_pends(pends(old(sections)@), r.4@),
         r.3 is None ==> all_sec_ok(pends(final(sections)@), current_start as int + DATA_SIZE as int),
-        r.3 is None ==> final(data)@ == win_data(pends(old(sections)@), r.4@, old(sections)@.len() as int, old(data)@, current_start as int),
+        r.3 is None ==> c64(final(data)@) == win_data(pends(old(sections)@), r.4@, old(sections)@.len() as int, c64(old(data)@), current_start as int),
         r.3 is None ==> r.0 as int == win_mdl(pends(old(sections)@), r.4@, old(sections)@.len() as int, max_data_len as int, current_start as int),
         r.3 is None ==> r.2 == (all_none && none_taken(pends(old(sections)@), r.4@)),
         r.3 is None ==> r.1 as int <= max_sections as int + total_len(pends(old(sections)@)),
@@ -510,21 +538,23 @@ spec fn flat(ws: Seq<Win>) -> Seq<Value>
 }
 /// one window: its sums are the fold of the inputs' values, its output is the RLE of the sums
 spec fn win_ok(w: Win) -> bool {
-    &&& 0 <= w.cs && w.cs + DATA_SIZE as int <= u32::MAX as int
+    &&& 0 <= w.cs <= u32::MAX as int
     &&& stops_ok(w.pre, w.ks, w.cs + DATA_SIZE as int)
     &&& w.data == win_data(w.pre, w.ks, w.pre.len() as int, zeros(), w.cs)
-    &&& 0 <= w.mdl <= DATA_SIZE
+    &&& 0 <= w.mdl <= DATA_SIZE && w.cs + w.mdl <= u32::MAX as int
+    &&& w.mdl == win_mdl(w.pre, w.ks, w.pre.len() as int, 0, w.cs)   // (iii) the largest in-window end touched in THIS window
     &&& runs_tile(w.runs, w.mdl)
     &&& forall|q: int| 0 <= q < w.runs.len() ==> run_ok(w.data, (#[trigger] w.runs[q]).0, w.runs[q].1, w.mdl)
     &&& w.out == emit(w.runs, w.data, w.cs)
 }
 #[verifier::opaque]
 spec fn windows_ok(ws: Seq<Win>) -> bool { forall|i: int| 0 <= i < ws.len() ==> win_ok(#[trigger] ws[i]) }
-/// windows follow each other: starts advance by exactly DATA_SIZE, each window starts from what the
-/// previous one left pending, the sections now hold what the last one left pending
+/// windows follow each other: starts advance by exactly DATA_SIZE (saturating at u32::MAX), each window
+/// starts from what the previous one left pending, the sections now hold what the last one left pending
 #[verifier::opaque]
 spec fn chain_ok(ws: Seq<Win>, ns: int, cur: Seq<Seq<Result<Value, MergeError>>>) -> bool {
-    &&& forall|i: int| 0 <= i < ws.len() ==> (#[trigger] ws[i]).cs + (ws.len() - i) * (DATA_SIZE as int) == ns
+    &&& forall|i: int| 0 <= i < ws.len() - 1 ==> (#[trigger] ws[i + 1]).cs == next_cs(ws[i].cs)
+    &&& ws.len() > 0 ==> ns == next_cs(ws.last().cs)
     &&& forall|i: int| 0 <= i < ws.len() - 1 ==> (#[trigger] ws[i + 1]).pre == next_pends(ws[i].pre, ws[i].ks)
     &&& ws.len() > 0 ==> cur == next_pends(ws.last().pre, ws.last().ks)
 }
@@ -535,12 +565,11 @@ spec fn conserved(h: Hist, pending_out: Seq<Value>) -> bool { h.emitted + pendin
 #[verifier::opaque]
 spec fn stream_sorted(ws: Seq<Win>, ns: int) -> bool { sorted_in(flat(ws), 0, ns) }
 #[verifier::opaque]
-spec fn inputs_ok(ps: Seq<Seq<Result<Value, MergeError>>>, ns: int, limit: int) -> bool {
+spec fn inputs_ok(ps: Seq<Seq<Result<Value, MergeError>>>, ns: int) -> bool {
     &&& all_sec_ok(ps, ns)
-    &&& ends_by(ps, limit)
     &&& total_len(ps) <= MAXHALF
-    &&& limit + 2 * (DATA_SIZE as int) <= u32::MAX as int
 }
+spec fn all_empty(ps: Seq<Seq<Result<Value, MergeError>>>) -> bool { forall|i: int| 0 <= i < ps.len() ==> (#[trigger] ps[i]).len() == 0 }
 
 // ---------------- lemmas (D) ----------------
 proof fn lemma_flat_push(ws: Seq<Win>, w: Win)
@@ -579,18 +608,19 @@ proof fn lemma_total_len_suffix(pre: Seq<Seq<Result<Value, MergeError>>>, ks: Se
 proof fn lemma_step_stream(h: Hist, lv: Option<Value>, w: Win)
     requires
         conserved(h, opt_v(lv)), stream_sorted(h.wins, w.cs),
-        0 <= w.cs, 0 <= w.mdl <= DATA_SIZE,
+        0 <= w.cs, 0 <= w.mdl <= DATA_SIZE, w.cs + w.mdl <= u32::MAX as int,
         sorted_in(w.out, w.cs, w.cs + w.mdl),
     ensures
-        conserved(Hist { wins: h.wins.push(w), emitted: h.emitted, limit: h.limit }, opt_v(lv) + w.out),
-        stream_sorted(h.wins.push(w), w.cs + DATA_SIZE as int),
+        conserved(Hist { wins: h.wins.push(w), emitted: h.emitted }, opt_v(lv) + w.out),
+        stream_sorted(h.wins.push(w), next_cs(w.cs)),
         queue_sorted(w.out),
         lv is Some ==> lv->Some_0.start < lv->Some_0.end && lv->Some_0.end <= w.cs,
         w.out.len() > 0 ==> w.cs <= w.out[0].start,
 {
     reveal(stream_sorted); reveal(sorted_in); reveal(queue_sorted);
     lemma_flat_push(h.wins, w);
-    lemma_sorted_concat(flat(h.wins), w.out, 0, w.cs, w.cs + DATA_SIZE as int);
+    lemma_sorted_concat(flat(h.wins), w.out, 0, w.cs, w.cs + w.mdl);
+    lemma_sorted_widen(flat(h.wins) + w.out, 0, w.cs + w.mdl, next_cs(w.cs));
     assert(h.emitted + (opt_v(lv) + w.out) =~= (h.emitted + opt_v(lv)) + w.out);
     let f = flat(h.wins);
     if lv is Some {
@@ -612,58 +642,65 @@ proof fn lemma_step_windows(ws: Seq<Win>, w: Win)
 /// part 3: the chain of windows
 proof fn lemma_step_chain(ws: Seq<Win>, w: Win, cur: Seq<Seq<Result<Value, MergeError>>>, post: Seq<Seq<Result<Value, MergeError>>>)
     requires chain_ok(ws, w.cs, cur), w.pre == cur, post == next_pends(cur, w.ks),
-    ensures chain_ok(ws.push(w), w.cs + DATA_SIZE as int, post),
+    ensures chain_ok(ws.push(w), next_cs(w.cs), post),
 {
     reveal(chain_ok);
     let ws2 = ws.push(w);
-    assert forall|i: int| 0 <= i < ws2.len() implies (#[trigger] ws2[i]).cs + (ws2.len() - i) * (DATA_SIZE as int) == w.cs + DATA_SIZE as int by {
-        if i < ws.len() { assert(ws2[i] == ws[i]); }
+    assert forall|i: int| 0 <= i < ws2.len() - 1 implies (#[trigger] ws2[i + 1]).cs == next_cs(ws2[i].cs) by {
+        assert(ws2[i] == ws[i]);
+        if i + 1 < ws.len() { assert(ws2[i + 1] == ws[i + 1]); } else { assert(ws[i] == ws.last()); }
     }
     assert forall|i: int| 0 <= i < ws2.len() - 1 implies (#[trigger] ws2[i + 1]).pre == next_pends(ws2[i].pre, ws2[i].ks) by {
         assert(ws2[i] == ws[i]);
         if i + 1 < ws.len() { assert(ws2[i + 1] == ws[i + 1]); } else { assert(ws[i] == ws.last()); }
     }
 }
-/// part 4: the inputs still pending keep their bounds
-proof fn lemma_step_inputs(cur: Seq<Seq<Result<Value, MergeError>>>, ks: Seq<int>, cs: int, limit: int, post: Seq<Seq<Result<Value, MergeError>>>)
+/// part 4: the inputs still pending keep their bounds (the next window starts at or before this one's end)
+proof fn lemma_step_inputs(cur: Seq<Seq<Result<Value, MergeError>>>, ks: Seq<int>, cs: int, post: Seq<Seq<Result<Value, MergeError>>>)
     requires
-        inputs_ok(cur, cs, limit), stops_ok(cur, ks, cs + DATA_SIZE as int),
+        inputs_ok(cur, cs), stops_ok(cur, ks, cs + DATA_SIZE as int),
         post == next_pends(cur, ks), all_sec_ok(post, cs + DATA_SIZE as int),
-    ensures inputs_ok(post, cs + DATA_SIZE as int, limit),
+    ensures inputs_ok(post, next_cs(cs)),
 {
     reveal(inputs_ok);
     assert forall|i: int| 0 <= i < cur.len() implies 0 <= #[trigger] ks[i] <= cur[i].len() by {
         assert(is_stop(cur[i], ks[i], cs + DATA_SIZE as int));
     }
-    assert forall|i: int, j: int| 0 <= i < post.len() && 0 <= j < post[i].len() && (#[trigger] post[i][j]) is Ok implies post[i][j]->Ok_0.end <= limit by {
-        assert(post[i][j] == cur[i][ks[i] + j]);
+    assert forall|i: int| 0 <= i < post.len() implies sec_ok(#[trigger] post[i], next_cs(cs)) by {
+        assert(sec_ok(post[i], cs + DATA_SIZE as int));
+        reveal(sec_ok);
     }
     lemma_total_len_suffix(cur, ks);
 }
-/// past the last input base nothing can be taken: the window sees no value (termination of the window loop)
-proof fn lemma_past_limit(ps: Seq<Seq<Result<Value, MergeError>>>, ks: Seq<int>, cs: int, limit: int)
-    requires inputs_ok(ps, cs, limit), stops_ok(ps, ks, cs + DATA_SIZE as int), cs > limit,
+proof fn lemma_sorted_widen(o: Seq<Value>, lo: int, hi: int, hi2: int)
+    requires sorted_in(o, lo, hi), hi <= hi2,
+    ensures sorted_in(o, lo, hi2),
+{
+    reveal(sorted_in);
+}
+/// the saturated window (its end lies beyond u32::MAX) drains every section: no u32 end reaches its end
+proof fn lemma_saturated_drains(ps: Seq<Seq<Result<Value, MergeError>>>, ks: Seq<int>, wend: int)
+    requires stops_ok(ps, ks, wend), wend > u32::MAX as int,
+    ensures all_empty(next_pends(ps, ks)), 
+{
+    assert forall|i: int| 0 <= i < ps.len() implies (#[trigger] next_pends(ps, ks)[i]).len() == 0 by {
+        assert(is_stop(ps[i], ks[i], wend) && !stop_is_err(ps[i], ks[i]));
+    }
+}
+/// when nothing is pending no section sees a value
+proof fn lemma_empty_none_taken(ps: Seq<Seq<Result<Value, MergeError>>>, ks: Seq<int>, wend: int)
+    requires stops_ok(ps, ks, wend), all_empty(ps),
     ensures none_taken(ps, ks),
 {
-    reveal(inputs_ok); reveal(sec_ok);
     assert forall|i: int| 0 <= i < ps.len() implies taken(#[trigger] ps[i], ks[i]).len() == 0 by {
-        let p = ps[i];
-        assert(sec_ok(p, cs));
-        assert(is_stop(p, ks[i], cs + DATA_SIZE as int) && !stop_is_err(p, ks[i]));
-        if p.len() > 0 {
-            if p[0] is Ok {
-                assert(cs <= p[0]->Ok_0.end);
-                assert(ps[i][0]->Ok_0.end <= limit);
-            } else {
-                assert(ks[i] == 0);
-            }
-        }
+        assert(is_stop(ps[i], ks[i], wend));
+        assert(ps[i].len() == 0);
     }
 }
 /// a window in which no section saw a value leaves every section exhausted
 proof fn lemma_none_taken_exhausted(ps: Seq<Seq<Result<Value, MergeError>>>, ks: Seq<int>, wend: int)
     requires stops_ok(ps, ks, wend), none_taken(ps, ks),
-    ensures forall|i: int| 0 <= i < ps.len() ==> (#[trigger] next_pends(ps, ks)[i]).len() == 0,
+    ensures all_empty(next_pends(ps, ks)),
 {
     assert forall|i: int| 0 <= i < ps.len() implies (#[trigger] next_pends(ps, ks)[i]).len() == 0 by {
         assert(taken(ps[i], ks[i]).len() == 0);
@@ -771,7 +808,7 @@ spec fn streams(s: Seq<VIter>) -> Seq<Seq<Result<Value, MergeError>>> { Seq::new
 fn pair_with_none(sections: Vec<VIter>) -> (r: Vec<(VIter, Option<Value>)>)
     ensures r@.len() == sections@.len(), forall|i: int| 0 <= i < r@.len() ==> (#[trigger] r@[i]).0 == sections@[i] && r@[i].1 is None,
 { unimplemented!() }
-proof fn lemma_initial_state(secs: Seq<(VIter, Option<Value>)>, ss: Seq<VIter>, limit: int)
+proof fn lemma_initial_state(secs: Seq<(VIter, Option<Value>)>, ss: Seq<VIter>)
     requires secs.len() == ss.len(), forall|i: int| 0 <= i < secs.len() ==> (#[trigger] secs[i]).0 == ss[i] && secs[i].1 is None,
     ensures
         pends(secs) == streams(ss),
@@ -786,17 +823,18 @@ proof fn lemma_initial_state(secs: Seq<(VIter, Option<Value>)>, ss: Seq<VIter>, 
 }
 
 // =====================================================================================
-// A. one section's contribution to the window: body of
-//    `'sections: for (section, last) in &mut self.sections { 'section: loop { .. } }`   (R9 outline)
+// A. one section's contribution to the window: the body of
+//    `'sections: for (section, last) in &mut self.sections { 'section: loop { .. } }`   (R9 outline).
+//    Cut from `fn next` by two presubs: everything up to and including the `for` header becomes the
+//    signature (the window's element type is copied from the real `vec![0f64; DATA_SIZE]`), everything
+//    from the `for`'s closing brace on is dropped.  Kept: the whole `'section: loop { .. }`.
 // =====================================================================================
 fn next_section(section: &mut VIter, last: &mut Option<Value>, data: &mut Vec<f64>, current_start: u32, max_data_len0: usize, max_sections0: usize, all_none0: bool, self_error: &mut bool, Ghost(k): Ghost<int>) -> (r: (usize, usize, bool, Option<MergeError>))
     requires
         
         old(data)@.len() == DATA_SIZE,
-        current_start as int + DATA_SIZE as int <= u32::MAX as int,
         sec_ok(pend(*old(last), *old(section)), current_start as int),
         is_stop(pend(*old(last), *old(section)), k, current_start as int + DATA_SIZE as int),
-        max_data_len0 <= DATA_SIZE,
         max_sections0 as int + pend(*old(last), *old(section)).len() < usize::MAX as int,
     ensures
         
@@ -816,10 +854,12 @@ fn next_section(section: &mut VIter, last: &mut Option<Value>, data: &mut Vec<f6
         // the invariant that rules out the u32 underflow in `next_val.end - current_start` in the next window
         !stop_is_err(pend(*old(last), *old(section)), k) ==> sec_ok(pend(*final(last), *final(section)), current_start as int + DATA_SIZE as int),
         
-        !stop_is_err(pend(*old(last), *old(section)), k) ==> final(data)@ == add_vals(old(data)@, taken(pend(*old(last), *old(section)), k), current_start as int),
+        !stop_is_err(pend(*old(last), *old(section)), k) ==> c64(final(data)@) == add_vals(c64(old(data)@), taken(pend(*old(last), *old(section)), k), current_start as int),
         
         !stop_is_err(pend(*old(last), *old(section)), k) ==> r.0 as int == touch_ends(max_data_len0 as int, taken(pend(*old(last), *old(section)), k), current_start as int),
-        r.0 <= DATA_SIZE,
+        max_data_len0 <= DATA_SIZE ==> r.0 <= DATA_SIZE,
+        
+        current_start as int + max_data_len0 as int <= u32::MAX as int ==> current_start as int + r.0 as int <= u32::MAX as int,
         
         !stop_is_err(pend(*old(last), *old(section)), k) ==> r.2 == (all_none0 && taken(pend(*old(last), *old(section)), k).len() == 0),
         
@@ -829,7 +869,7 @@ fn next_section(section: &mut VIter, last: &mut Option<Value>, data: &mut Vec<f6
         let mut max_sections = max_sections0;
         let mut all_none = all_none0;
         let ghost p = pend(*last, *section);
-        let ghost d0 = data@;
+        let ghost d0 = c64(data@);
         let ghost m0 = max_data_len as int;
         let ghost s0 = max_sections as int;
         let ghost cs = current_start as int;
@@ -850,17 +890,17 @@ fn next_section(section: &mut VIter, last: &mut Option<Value>, data: &mut Vec<f6
                 pend(*last, *section) == p.subrange(j, p.len() as int),
                 j > 0 ==> *last is None,
                 
-                data@ == add_vals(d0, oks(p, j), cs),
+                c64(data@) == add_vals(d0, oks(p, j), cs),
                 max_data_len as int == touch_ends(m0, oks(p, j), cs),
                 all_none == (all_none0 && j == 0),
                 max_sections as int <= s0 + j,
             invariant
                 
-                p == pend(*old(last), *old(section)), d0 == old(data)@, cs == current_start as int, wend == cs + DATA_SIZE as int,
-                wend <= u32::MAX as int,
+                p == pend(*old(last), *old(section)), d0 == c64(old(data)@), cs == current_start as int, wend == cs + DATA_SIZE as int,
+                cs + max_data_len0 as int <= u32::MAX as int ==> cs + max_data_len as int <= u32::MAX as int,
                 sec_ok(p, cs), is_stop(p, k, wend),
                 !stop_is_err(p, k) ==> sec_ok(p.subrange(k, p.len() as int), wend),
-                data@.len() == DATA_SIZE, max_data_len <= DATA_SIZE,
+                data@.len() == DATA_SIZE, max_data_len0 <= DATA_SIZE ==> max_data_len <= DATA_SIZE,
                 s0 + p.len() < usize::MAX as int, m0 == max_data_len0 as int, s0 == max_sections0 as int,
                 *self_error == *old(self_error),
                 <f64 as AddSpec<f64>>::obeys_add_spec(),
@@ -868,7 +908,7 @@ fn next_section(section: &mut VIter, last: &mut Option<Value>, data: &mut Vec<f6
                 
                 0 <= k, j == k, k < p.len(), p[k] is Ok,
                 *last == Some(p[k]->Ok_0), section.rest() == p.subrange(k + 1, p.len() as int),
-                data@ == add_vals(d0, oks(p, k + 1), cs),
+                c64(data@) == add_vals(d0, oks(p, k + 1), cs),
                 max_data_len as int == touch_ends(m0, oks(p, k + 1), cs),
                 all_none == false,
                 max_sections as int <= s0 + k + 1,
@@ -902,7 +942,7 @@ fn next_section(section: &mut VIter, last: &mut Option<Value>, data: &mut Vec<f6
                     all_none = false;
 
 
-                    let ghost d_in = data@;
+                    let ghost d_in = c64(data@);
                     let ghost m_in = max_data_len as int;
                     proof {
                         // the value just obtained is p[j]; the stream behind it is p[j+1..]
@@ -942,11 +982,11 @@ fn next_section(section: &mut VIter, last: &mut Option<Value>, data: &mut Vec<f6
                             value == next_val.value,
                             <f64 as AddSpec<f64>>::obeys_add_spec(),
                             
-                            data@ == add_range(d_in, data_start as int, i__ as int, f64_of(value)),
+                            c64(data@) == add_range(d_in, data_start as int, i__ as int, f64_of(value)),
 { let i = cell_mut(data, i__);
                         *i = *i + (f64_of_f32(value));
                     
-                            proof { assert(data@ =~= add_range(d_in, data_start as int, i__ + 1, f64_of(value))); } 
+                            proof { assert(c64(data@) =~= add_range(d_in, data_start as int, i__ + 1, f64_of(value))); } 
 }
                     max_data_len = max_data_len.max(data_end);
                     max_sections = max_sections + (1);
@@ -960,7 +1000,7 @@ fn next_section(section: &mut VIter, last: &mut Option<Value>, data: &mut Vec<f6
                         j = j + 1;
                     }
 }
-            
+
             proof {
                 assert(p[k] == Ok::<Value, MergeError>(p[k]->Ok_0));
                 assert(pend(*last, *section) =~= p.subrange(k, p.len() as int));
@@ -977,19 +1017,20 @@ fn rle(data: &Vec<f64>, max_data_len: usize, current_start: u32, max_sections: u
     requires
         
         data@.len() == DATA_SIZE, max_data_len <= DATA_SIZE,
-        current_start as int + DATA_SIZE as int <= u32::MAX as int,
+        // the encoder's `idx + current_start + 1` / `c.1 += 1`: the encoded span must fit u32
+        current_start as int + max_data_len as int <= u32::MAX as int,
         max_sections <= usize::MAX / 2,
     ensures
         
         runs_tile(out.1@, max_data_len as int),
         
-        forall|q: int| 0 <= q < out.1@.len() ==> run_ok(data@, (#[trigger] out.1@[q]).0, out.1@[q].1, max_data_len as int),
+        forall|q: int| 0 <= q < out.1@.len() ==> run_ok(c64(data@), (#[trigger] out.1@[q]).0, out.1@[q].1, max_data_len as int),
         
-        out.0@ == emit(out.1@, data@, current_start as int),
+        out.0@ == emit(out.1@, c64(data@), current_start as int),
         
         sorted_in(out.0@, current_start as int, current_start as int + max_data_len as int),
 {
-        let ghost d = data@;
+        let ghost d = c64(data@);
         let ghost n = max_data_len as int;
         let ghost cs = current_start as int;
         let ghost mut runs: Seq<(int, int)> = Seq::empty();
@@ -1001,14 +1042,14 @@ fn rle(data: &Vec<f64>, max_data_len: usize, current_start: u32, max_sections: u
             slice_bounds(data, 0, max_data_len); for idx in 0..max_data_len 
             invariant
                 
-                d == data@, n == max_data_len as int, cs == current_start as int, d.len() == DATA_SIZE, n <= DATA_SIZE,
-                0 <= cs, cs + DATA_SIZE as int <= u32::MAX as int,
+                d == c64(data@), n == max_data_len as int, cs == current_start as int, d.len() == DATA_SIZE, n <= DATA_SIZE,
+                0 <= cs, cs + n <= u32::MAX as int,
                 
                 idx == 0 ==> current is None && s == 0,
                 idx > 0 ==> current is Some && 0 <= s < idx,
                 idx > 0 ==> current->Some_0.0 as int == cs + s,
                 idx > 0 ==> current->Some_0.1 as int == cs + idx,
-                idx > 0 ==> current->Some_0.2 == d[s],
+                idx > 0 ==> e64(current->Some_0.2) == d[s],
                 
                 rle_deep(runs, next_sections@, d, cs, n, s, idx as int),
 { let i = &data[idx];
@@ -1021,14 +1062,14 @@ fn rle(data: &Vec<f64>, max_data_len: usize, current_start: u32, max_sections: u
                 match &mut current {
                     None => current = Some((idx + current_start, idx + current_start + 1, *i)),
                     Some(c) => {
-                        if f64_eq(c.2, *i) {
+                        if cell_eq(c.2, *i) {
                             c.1 = c.1 + (1);
                         } else {
-                            if f64_ne(c.2, 0.0) {
+                            if cell_ne(c.2, 0.0) {
                                 next_sections.push(Value {
                                     start: c.0,
                                     end: c.1,
-                                    value: f32_of_f64(c.2),
+                                    value: cell_to_f32(c.2),
                                 });
                             }
                             current = Some((idx + current_start, idx + current_start + 1, *i));
@@ -1054,11 +1095,11 @@ fn rle(data: &Vec<f64>, max_data_len: usize, current_start: u32, max_sections: u
 
             let ghost out_before_flush = next_sections@;
             if let Some(c) = &mut current {
-                if f64_ne(c.2, 0.0) {
+                if cell_ne(c.2, 0.0) {
                     next_sections.push(Value {
                         start: c.0,
                         end: c.1,
-                        value: f32_of_f64(c.2),
+                        value: cell_to_f32(c.2),
                     });
                 }
             }
@@ -1206,16 +1247,15 @@ spec fn live_inv(it: ValueIter) -> bool {
     &&& stream_sorted(it.hist@.wins, it.next_start as int)
     &&& windows_ok(it.hist@.wins)
     &&& chain_ok(it.hist@.wins, it.next_start as int, pends(it.sections@))
-    &&& inputs_ok(pends(it.sections@), it.next_start as int, it.hist@.limit)
+    &&& inputs_ok(pends(it.sections@), it.next_start as int)
 }
 
 impl ValueIter {
 fn next(&mut self) -> (r: Option<Result<Value, MergeError>>)
     requires
         
+        // all u32 coordinates: no bound on next_start or on the inputs' ends
         !old(self).error ==> live_inv(*old(self)),
-        // (v) `current_start + DATA_SIZE as u32` must not overflow: see NOTES.md (values near u32::MAX)
-        old(self).next_start as int + DATA_SIZE as int <= u32::MAX as int,
     ensures
         
         old(self).error ==> r is None && final(self).error && final(self).hist@ == old(self).hist@,
@@ -1240,15 +1280,15 @@ fn next(&mut self) -> (r: Option<Result<Value, MergeError>>)
         
         !final(self).error ==> chain_ok(final(self).hist@.wins, final(self).next_start as int, pends(final(self).sections@)),
         
-        !final(self).error ==> inputs_ok(pends(final(self).sections@), final(self).next_start as int, final(self).hist@.limit),
+        !final(self).error ==> inputs_ok(pends(final(self).sections@), final(self).next_start as int),
         
         (r is None && !old(self).error) ==> {
             &&& !final(self).error
             &&& pending_out(*final(self)).len() == 0
-            &&& forall|i: int| 0 <= i < final(self).sections@.len() ==> (#[trigger] pends(final(self).sections@)[i]).len() == 0
+            &&& all_empty(pends(final(self).sections@))
         },
         
-        old(self).hist@.wins.is_prefix_of(final(self).hist@.wins), final(self).hist@.limit == old(self).hist@.limit,
+        old(self).hist@.wins.is_prefix_of(final(self).hist@.wins),
 {
         let ghost h0 = self.hist@;
         let ghost n0 = self.next_start as int;
@@ -1276,24 +1316,17 @@ fn next(&mut self) -> (r: Option<Result<Value, MergeError>>)
             }
         }
 
-
         proof {
             assert(buf_of(self.next_sections).len() == 0); 
             assert(pending_out(*self) =~= opt_v(self.last_val));
             reveal(inputs_ok);
         }
-        let ghost bound = imax(n0, h0.limit + DATA_SIZE as int);
-        let mut max_data_len = 0;
         loop 
             invariant
                 
                 !self.error, self.next_sections is None || buf_of(self.next_sections).len() == 0,
                 h0 == old(self).hist@, n0 == old(self).next_start as int, !old(self).error, buf_of(old(self).next_sections).len() == 0,
-                self.hist@.emitted == h0.emitted, self.hist@.limit == h0.limit, h0.wins.is_prefix_of(self.hist@.wins),
-                max_data_len <= DATA_SIZE,
-                
-                bound == imax(n0, h0.limit + DATA_SIZE as int), bound + DATA_SIZE as int <= u32::MAX as int,
-                self.next_start as int <= bound,
+                self.hist@.emitted == h0.emitted, h0.wins.is_prefix_of(self.hist@.wins),
                 
                 conserved(self.hist@, opt_v(self.last_val)),
                 
@@ -1301,27 +1334,34 @@ fn next(&mut self) -> (r: Option<Result<Value, MergeError>>)
                 
                 windows_ok(self.hist@.wins),
                 chain_ok(self.hist@.wins, self.next_start as int, pends(self.sections@)),
-                inputs_ok(pends(self.sections@), self.next_start as int, self.hist@.limit),
+                inputs_ok(pends(self.sections@), self.next_start as int),
             decreases
                 
-                bound + DATA_SIZE as int - self.next_start as int,
+                // next_start grows until it saturates at u32::MAX; the saturated window drains every section,
+                // and with nothing pending the next window sees no value and returns
+                u32::MAX as int - self.next_start as int,
+                (if all_empty(pends(self.sections@)) { 0int } else { 1int }),
 {
+            // Cells touched in this window only (a window's cells must not be encoded again in the next)
+            let mut max_data_len = 0;
             let current_start = self.next_start;
             // The last window may reach past u32::MAX; nothing can lie beyond it
             self.next_start = current_start.saturating_add(DATA_SIZE as u32);
 
             let mut data = vec![0f64; DATA_SIZE];
+            let mut max_sections: usize = 0;
+            let mut all_none = true;
 
             let ghost pre = pends(self.sections@);
             let ghost hw = self.hist@;
             let ghost lv0 = self.last_val;
+            let ghost ns_in = current_start as int;
             proof {
-                assert(data@ =~= zeros());
                 reveal(inputs_ok);
-                assert(self.next_start as int == current_start as int + DATA_SIZE as int); 
+                assert(self.next_start as int == next_cs(current_start as int)); 
+                assert(c64(data@) =~= zeros()); 
             }
-            let mut max_sections: usize = 0;
-            let mut all_none = true;
+            let ghost m_in = max_data_len as int;
             let acc = accumulate_sections(&mut self.sections, &mut data, current_start, max_data_len, max_sections, all_none, &mut self.error);
             max_data_len = acc.0; max_sections = acc.1; all_none = acc.2;
             if let Some(e) = acc.3 { return Some(Err(e)); }
@@ -1329,13 +1369,16 @@ fn next(&mut self) -> (r: Option<Result<Value, MergeError>>)
             let ghost ks = acc.4@;
             let ghost post = pends(self.sections@);
             proof {
-                lemma_step_inputs(pre, ks, current_start as int, hw.limit, post);
+                lemma_step_inputs(pre, ks, current_start as int, post);
                 lemma_total_len_suffix_bound(pre, max_sections as int);
+                assert(current_start as int + max_data_len as int <= u32::MAX as int); 
+                assert(m_in == 0); 
+                assert(max_data_len <= DATA_SIZE);
             }
             let rle_out = rle(&data, max_data_len, current_start, max_sections);
             let mut next_sections: Vec<Value> = rle_out.0;
 
-            let ghost w = Win { cs: current_start as int, pre: pre, ks: ks, data: data@, mdl: max_data_len as int, runs: rle_out.1@, out: next_sections@ };
+            let ghost w = Win { cs: current_start as int, pre: pre, ks: ks, data: c64(data@), mdl: max_data_len as int, runs: rle_out.1@, out: next_sections@ };
             proof {
                 assert(win_ok(w)); 
                 lemma_step_stream(hw, lv0, w);
@@ -1397,31 +1440,35 @@ fn next(&mut self) -> (r: Option<Result<Value, MergeError>>)
             proof {
                 assert(next_sections@.len() == 0);
                 assert(opt_v(self.last_val) =~= queue);
-                // the loop goes on only while some section still saw a value: the window start is not past the last input base
-                if current_start as int > hw.limit { lemma_past_limit(pre, ks, current_start as int, hw.limit); }
-                assert(current_start as int <= hw.limit); 
+                // the loop goes on only if some section saw a value in this window
+                if all_empty(pre) { lemma_empty_none_taken(pre, ks, current_start as int + DATA_SIZE as int); }
+                assert(!all_empty(pre)); 
+                if current_start as int + DATA_SIZE as int > u32::MAX as int {
+                    lemma_saturated_drains(pre, ks, current_start as int + DATA_SIZE as int);
+                    assert(all_empty(post)); 
+                }
             }
 }
     }
 }
 
 // ---------------- the constructor: establishes the state invariant for the first call ----------------
-fn merge_sections_many(sections: Vec<VIter>, Ghost(limit): Ghost<int>) -> (r: ValueIter)
+fn merge_sections_many(sections: Vec<VIter>) -> (r: ValueIter)
     requires
         
-        // C15 input assumption: every stream sorted, disjoint, start <= end; no value ends beyond `limit`
-        inputs_ok(streams(sections@), 0, limit),
+        // C15 input assumption: every stream sorted, disjoint, start <= end (any u32 coordinates)
+        inputs_ok(streams(sections@), 0),
     ensures
         
         !r.error && r.next_start == 0 && r.next_sections is None && r.last_val is None,
         pends(r.sections@) == streams(sections@),
-        r.hist@.wins.len() == 0 && r.hist@.emitted.len() == 0 && r.hist@.limit == limit,
+        r.hist@.wins.len() == 0 && r.hist@.emitted.len() == 0,
         
         live_inv(r),
 {
     let ghost ss = sections@;
 
-    let r__ = ValueIter { hist: Ghost(Hist { wins: Seq::empty(), emitted: Seq::empty(), limit: limit }),
+    let r__ = ValueIter { hist: Ghost(Hist { wins: Seq::empty(), emitted: Seq::empty() }),
         error: false,
         sections: pair_with_none(sections),
         next_sections: None,
@@ -1431,7 +1478,7 @@ fn merge_sections_many(sections: Vec<VIter>, Ghost(limit): Ghost<int>) -> (r: Va
 
     ;
     proof {
-        lemma_initial_state(r__.sections@, ss, limit);
+        lemma_initial_state(r__.sections@, ss);
         assert(r__.hist@.emitted + pending_out(r__) =~= Seq::<Value>::empty());
     }
     r__
